@@ -41,3 +41,73 @@ def vcs(B):
                 t = app('*', rot[member][3 * i + j], T[j])
                 want = t if want is None else app('+', want, t)
             B.vc('dRTdAngles[%d,%d].is_dRdAngle_times_T' % (i, a), app('=', M[3 * i + a], want), functions=['SR__dRTdAngles'])
+    B.take_obligations()
+    pose_jacobian(B)
+
+
+def pose_jacobian(B):
+    """operator*(Affine3d, Pose3D): the local 6x6 matrix J of the code against the Jacobian of the library's own pose map
+    (p, angles) -> (R p + T, rotation3DToEulerAngles(R * Rzyx(angles))), and covariance' = J cov J^T."""
+    from emit_smt import add, sub, mul, neg, lnot, implies
+    B.unit('src/geometry/Pose3D.cpp')
+    B.unit('inst/euler.cpp')
+    B.function('pose_transform', '', 'operator*')
+    B.extract()
+    # every rigid transform: the linear part ranges over all rotations, written Rz(t_yaw) Ry(t_pitch) Rx(t_roll) (a surjective
+    # parametrisation of SO(3)), so that every refutation is a refutation inside the property's quantifier
+    tang = [B.real('t_roll'), B.real('t_pitch'), B.real('t_yaw')]
+    for a in tang:
+        B.libm('sin', [a], 'true'); B.libm('cos', [a], 'true')
+    tenv = {'sx': app('f_sin', tang[0]), 'cx': app('f_cos', tang[0]), 'sy': app('f_sin', tang[1]), 'cy': app('f_cos', tang[1]), 'sz': app('f_sin', tang[2]), 'cz': app('f_cos', tang[2])}
+    Rsym = symalg.rot_zyx()
+    R = [[Rsym[i][j].smt(tenv) for j in range(3)] for i in range(3)]
+    T = B.vec('AT', 3)
+    aff = [R[0][0], R[0][1], R[0][2], T[0], R[1][0], R[1][1], R[1][2], T[1], R[2][0], R[2][1], R[2][2], T[2], '0.0', '0.0', '0.0', '1.0']
+    p = B.vec('pp', 3)
+    ang = [B.real('roll'), B.real('pitch'), B.real('yaw')]
+    cov = B.vec('cov', 36)
+    res = B.call('pose_transform', list(aff), B.make('Pose3D', position=list(p), orientation=list(ang), covariance=list(cov)))
+    env = dict(B.last_env)
+    B.take_obligations()
+    J, M = env.get('J'), env.get('rotation')
+    if not (isinstance(J, list) and len(J) == 36 and isinstance(M, list) and len(M) == 9):
+        from front import ExtractError
+        raise ExtractError('C12 spec: operator*(Affine3d, Pose3D) no longer has the locals J (6x6) and rotation (3x3)')
+    fp = ['pose_transform']
+    for a in ang:
+        B.libm('sin', [a], 'true'); B.libm('cos', [a], 'true')
+    # covariance' = J cov J^T with the code's own J (entries generalised to symbols: a polynomial identity)
+    Jg = [B.real('Jg_%d_%d' % (i // 6, i % 6)) for i in range(36)]
+    gen = [(J[i], Jg[i]) for i in range(36) if J[i] not in ('0.0', '1.0')]
+    Jv = [Jg[i] if J[i] not in ('0.0', '1.0') else J[i] for i in range(36)]
+    rc = B.get(res, 'covariance')
+    for i in range(6):
+        for j in range(i, 6):
+            acc = None
+            for k in range(6):
+                for l in range(6):
+                    if Jv[6 * i + k] == '0.0' or Jv[6 * j + l] == '0.0':
+                        continue
+                    t = mul(mul(Jv[6 * i + k], cov[6 * k + l]), Jv[6 * j + l])
+                    acc = t if acc is None else add(acc, t)
+            B.vc('pose_transform.covariance[%d,%d].is_J_cov_Jt' % (i, j), app('=', rc[6 * i + j], acc or '0.0'), functions=fp, subst=gen)
+    # the Jacobian of the library's own map
+    dM = [[symalg.sdiff(M[k], a) for a in ang] for k in range(9)]     # dM[3*r+c][angle]
+    m = lambda r, c: M[3 * r + c]
+    d = lambda r, c, k: dM[3 * r + c][k]
+    den_x = add(mul(m(2, 1), m(2, 1)), mul(m(2, 2), m(2, 2)))
+    den_z = add(mul(m(0, 0), m(0, 0)), mul(m(1, 0), m(1, 0)))
+    one_m = sub('1.0', mul(m(2, 0), m(2, 0)))
+    dom = [app('>', den_x, '0.0'), app('>', den_z, '0.0'), app('>', one_m, '0.0')]
+    for i in range(3):
+        for j in range(3):
+            B.vc('pose_transform.J[%d,%d].is_d_position_d_position' % (i, j), app('=', J[6 * i + j], R[i][j]), dom, functions=fp, timeout=20)
+            B.vc('pose_transform.J[%d,%d].is_zero_position_does_not_depend_on_attitude' % (i, 3 + j), app('=', J[6 * i + 3 + j], '0.0'), dom, functions=fp, timeout=20)
+            B.vc('pose_transform.J[%d,%d].is_zero_attitude_does_not_depend_on_position' % (3 + i, j), app('=', J[6 * (3 + i) + j], '0.0'), dom, functions=fp, timeout=20)
+    for k in range(3):
+        # d atan2(y, x) = (x dy - y dx) / (x^2 + y^2);  d(-asin u) = -du / sqrt(1 - u^2)   (between0And2Pi adds a locally constant multiple of 2 pi)
+        B.vc('pose_transform.J[3,%d].is_d_roll_d_angle' % (3 + k), app('=', mul(J[6 * 3 + 3 + k], den_x), sub(mul(m(2, 2), d(2, 1, k)), mul(m(2, 1), d(2, 2, k)))), dom, functions=fp, timeout=30)
+        # -d/sqrt(1-u^2) stated without the square root: J^2 (1 - u^2) = du^2 and J du <= 0
+        B.vc('pose_transform.J[4,%d].is_d_pitch_d_angle.magnitude' % (3 + k), app('=', mul(mul(J[6 * 4 + 3 + k], J[6 * 4 + 3 + k]), one_m), mul(d(2, 0, k), d(2, 0, k))), dom, functions=fp, timeout=30)
+        B.vc('pose_transform.J[4,%d].is_d_pitch_d_angle.sign' % (3 + k), app('<=', mul(J[6 * 4 + 3 + k], d(2, 0, k)), '0.0'), dom, functions=fp, timeout=30)
+        B.vc('pose_transform.J[5,%d].is_d_yaw_d_angle' % (3 + k), app('=', mul(J[6 * 5 + 3 + k], den_z), sub(mul(m(0, 0), d(1, 0, k)), mul(m(1, 0), d(0, 0, k)))), dom, functions=fp, timeout=30)
